@@ -12,7 +12,7 @@ RULE = (
     "no basis code); the interpolation error eps(g) of each grid is measured from eko's basis on the PDF. Oracle: (i) |pred(g)-truth| <= "
     "K_k eps(g) S + 1e-6 S for adequate grids (eps <= 1e-2), K_0=5, K_1=K_2=300; (ii) a drop of eps by >= 10 must not make the error worse (factor 2); the floor "
     "of (i),(ii) includes 5x the code's own contracted quadrature-error estimate; (iii) SV keys of the two finest grids agree within K max(eps) S; (iv) x on a node vs x(1+-1e-9): predictions "
-    "within 3e-6/3e-6/5e-5 S by order; (v) with TMC 1/3 at x in [0.8,0.95] successive grids agree within K (eps_i+eps_j) S; node tolerances plus 5x the code's own contracted quadrature-error estimate. Distinct = (kind, process, scheme, order, x class, relation); non-trivial = truth non-zero and at least two adequate grids."
+    "within 3e-6/3e-6/5e-5 S by order; (vi) the finest grid and a twin of equal size/end points/degree but other interior nodes agree within K (eps+eps') S for every key; (v) with TMC 1/3 at x in [0.8,0.95] successive grids agree within K (eps_i+eps_j) S; node tolerances plus 5x the code's own contracted quadrature-error estimate. Distinct = (kind, process, scheme, order, x class, relation); non-trivial = truth non-zero and at least two adequate grids."
 )
 ASSUMPTIONS = ["'adequate grid' is operationalised as measured interpolation error <= 1e-2; coarser grids are not judged",
                "K factors calibrated on the pinned tree (loose by design: the sharp entrywise statement about the same code is C01)"]  # fmt: skip
@@ -28,7 +28,7 @@ def budget(tier):
 
 def floor(tier):
     return dict(min_conclusive=10 if tier == "quick" else 100, min_nontrivial=20 if tier == "quick" else 120,
-                classes=["bound", "monotone", "sv-agree", "node-continuity", "on-node", "tmc-family"], probes=["collect_elems", "truth_integrals"], min_compared=80)  # fmt: skip
+                classes=["bound", "monotone", "sv-agree", "node-continuity", "on-node", "tmc-family", "twin-grid"], probes=["collect_elems", "truth_integrals"], min_compared=80)  # fmt: skip
 
 
 def cases(tier, rng):
@@ -225,6 +225,30 @@ def run_case(case):
                 nontrivial.add(f"{cellb}|sv|{case['xcls']}")
             if d > bound:
                 viol.append(dict(sig=f"refinement-sv|{case['kind']}|{run.key(key)}", what=f"{name} key {run.key(key)} x={x:.5g}: the two finest grids give {preds[i].get(key,0.0):.10g} and {preds[j][key]:.10g}: |diff|/S = {d/max(S,1e-300):.2e} > {bound/max(S,1e-300):.2e}"))
+            else:
+                margin = max(margin, d / max(bound, 1e-300))
+    # (vi) twin grid: same size, end points, degree and log mode as the finest grid, other interior nodes - run right after it in
+    # the same process; every key (SV keys included) must agree within the interpolation accuracy of the two
+    gs = case["family"][-1]
+    xg_f = cards.grid(gs["n_low"], gs["n_mid"], x_min=min(1e-4, x / 5), kind=gs["kind"])
+    xg_w = cards.warp_grid(xg_f)
+    ob_w = cards.observables({name: [dict(x=x, Q2=Q2)]}, xgrid=xg_w, deg=gs["deg"], prDIS=case["proc"], ProjectileDIS=case["proj"])
+    res_w = yad.run_yadism(th, ob_w)[name][0]
+    fm_w = np.array([[pdf.f(pid, xj) for xj in xg_w] for pid in cards.PIDS])
+    eps_w = interp_error(run.interpolator(ob_w), xg_w, pdf, x)
+    if epss[-1] <= 1e-2 and eps_w <= 1e-2:
+        classes.add("twin-grid")
+        for key, v in res_w.orders.items():
+            pw = float(np.sum(np.asarray(v[0]) * fm_w))
+            S = max(Ss[-1].get(key, 0.0), float(np.sum(np.abs(np.asarray(v[0]) * fm_w))))
+            E = Es[-1].get(key, 0.0) + float(np.sum(np.abs(np.asarray(v[1]) * fm_w)))
+            d = abs(pw - preds[-1].get(key, 0.0))
+            bound = K[min(key[0], 2)] * (epss[-1] + eps_w) * S + FLOOR * S + 5.0 * E
+            compared += 1
+            if S > 0:
+                nontrivial.add(f"{cellb}|twin|{case['xcls']}")
+            if d > bound:
+                viol.append(dict(sig=f"refinement-twin|{case['kind']}|{run.key(key)}", what=f"{name} key {run.key(key)} x={x:.5g}: the finest grid and its twin (same size, end points and degree, other interior nodes; interpolation errors {epss[-1]:.1e}, {eps_w:.1e}) predict {preds[-1].get(key,0.0):.10g} and {pw:.10g}: |diff|/S = {d/max(S,1e-300):.2e} > {bound/max(S,1e-300):.2e}"))
             else:
                 margin = max(margin, d / max(bound, 1e-300))
     # (iv) node continuity on the finest grid
